@@ -30,6 +30,14 @@ def generate(rng: random.Random, tier: str):
         cases.append({'kind': 'move', 'container': rng.choice(CONTAINERS), 'overload': rng.choice(OVERLOADS), 'dtype': rng.choice(list(DTYPES)),
                       'copy': rng.random() < 0.5, 'alias': rng.choice(['none', 'none', 'pair', 'triple', 'views']), 'src_double': rng.random() < 0.35,
                       'seed': rng.randrange(1 << 30)})
+    # systematic: containers holding modules (the Rotation in acq_info.orientation) x source precision x every target dtype, without copy:
+    # a conversion must never be done in place on the source's module
+    for cont in ('KData', 'KHeader', 'IData'):
+        for dbl in (False, True):
+            for ov in (('to_dtype', 'to_tensor') if thorough else (rng.choice(['to_dtype', 'to_tensor']),)):
+                for dt in DTYPES:
+                    cases.append({'kind': 'move', 'container': cont, 'overload': ov, 'dtype': dt, 'copy': False, 'alias': 'none', 'src_double': dbl,
+                                  'seed': rng.randrange(1 << 30)})
     return cases
 
 
